@@ -15,7 +15,8 @@
 //   ssearch <conn> <nverts|0> <src> <tar> <prevOfStart|-1> <lineSrc> <lineDst> <found> <plen> {v}*plen
 //        nverts = 0: graph not dumped (sampled out / too large): indices are then meaningless
 //   sgx/sgy/sgf/sgp <per vertex>      sga {<deg> {<to> <dist> <dummy> <disabled>}*deg}*nverts
-//   sisolated <conn> <enabled edges of src> <edges of tar>    a failed search one of whose ends has no edge (instead of ssearch)
+//   sisolated <conn> <enabled edges out of src> <enabled edges into tar, whole graph> <src is lineRef->src()> <tar is lineRef->dst()>
+//        a failed search one of whose ends has no edge (instead of ssearch)
 //   srouted <conn> <npts> {x y}*
 //   scross                             first progress callback of the crossing-detection phase
 // The end-point list `possibleDstPinPoints()` is NOT dumped: the driver computes it from the model's
@@ -36,7 +37,10 @@ struct SEdge { int to; double dist; bool dummy, disabled; };
 
 struct SearchTap : public Avoid::DebugHandler {
     Avoid::Router *router = nullptr;
-    std::map<unsigned, std::pair<Avoid::ConnRef *, bool>> conns;   // id -> (connector, orthogonal)
+    struct ConnInfo { Avoid::ConnRef *first; bool second; bool restricted; };   // connector, orthogonal, has direction-restricted checkpoints
+    std::map<unsigned, ConnInfo> conns;
+    long failedDumps = 0, failedDumpsRestricted = 0;    // per case
+    long maxFailedDumps = 16, maxFailedDumpsRestricted = 2;
     long caseIdx = 0; long sampleEvery = 8; size_t maxVerts = 1500, maxVertsSampled = 350;   // a failed search is always dumped (up to maxVerts)
     std::string out;              // event lines of the current transaction
     long seq = 0;
@@ -86,13 +90,26 @@ struct SearchTap : public Avoid::DebugHandler {
         ++nSearches;
         bool sampled = ((caseIdx * 7 + seq) % sampleEvery) == 0;
         bool dump = found ? (sampled && vs.size() <= maxVertsSampled) : vs.size() <= maxVerts;
+        bool restrictedConn = false;
+        { auto c = conns.find(pConn); restrictedConn = c != conns.end() && c->second.restricted; }
         ++seq;
         if (!found) {
-            // a search whose source has no enabled edge or whose target has no edge at all (an end attached to a pin
+            // a search whose source has no enabled edge or into whose target no enabled edge leads (an end attached to a pin
             // class without a free pin gets no edge from assignPinVisibilityTo) fails before it starts: no graph needed
-            size_t sdeg = 0, tdeg = off[pTar + 1] - off[pTar];
+            // (Props/C11Search: isolated_source_no_route, no_enabled_edge_into_target_no_route)
+            size_t sdeg = 0, tdeg = 0;        // enabled edges out of the source / into the target from anywhere
             for (size_t j = off[pSrc]; j < off[pSrc + 1]; ++j) if (!es[j].disabled) ++sdeg;
-            if (sdeg == 0 || tdeg == 0) { ap(out, "sisolated %d %zu %zu\n", (int) pConn - 1000, sdeg, tdeg); return; }
+            for (size_t j = 0; j < es.size(); ++j) if (es[j].to == pTar && !es[j].disabled) ++tdeg;
+            if (sdeg == 0 || tdeg == 0) {
+                ap(out, "sisolated %d %zu %zu %d %d\n", (int) pConn - 1000, sdeg, tdeg, pSrc == pLineSrc ? 1 : 0, pTar == pLineDst ? 1 : 0);
+                return;
+            }
+        }
+        if (!found && dump) {
+            // budget: failed legs of connectors with direction-restricted checkpoints are the rule (known class cp-dirs,
+            // decided by the driver's existing logic): only the first few per case are dumped
+            if (restrictedConn ? failedDumpsRestricted >= maxFailedDumpsRestricted : failedDumps >= maxFailedDumps) dump = false;
+            else ++(restrictedConn ? failedDumpsRestricted : failedDumps);
         }
         ap(out, "ssearch %d %zu %d %d %d %d %d %d %zu", (int) pConn - 1000, dump ? vs.size() : (size_t) 0, pSrc, pTar, pPrev, pLineSrc, pLineDst,
            found ? 1 : 0, rp.size());
@@ -115,7 +132,9 @@ struct SearchTap : public Avoid::DebugHandler {
     void beginningSearchWithEndpoints(Avoid::VertInf *s, Avoid::VertInf *t) override {
         finalize();
         auto c = conns.find(t->id.objID);
-        if (c == conns.end() || !c->second.second || !router) return;      // polyline search / unknown connector
+        if (c == conns.end() || !router) return;
+        lastSearchConn = t->id.objID;          // polyline connectors take pins too: their `srouted` is needed
+        if (!c->second.second) return;         // polyline search: not modelled
         Avoid::ConnRef *conn = c->second.first;
         vs.clear(); es.clear(); off.clear(); idx.clear();
         for (Avoid::VertInf *v = router->vertices.connsBegin(); v != router->vertices.end(); v = v->lstNext) {
@@ -134,7 +153,6 @@ struct SearchTap : public Avoid::DebugHandler {
             }
         }
         off.push_back(es.size());
-        lastSearchConn = t->id.objID;
         pConn = t->id.objID; pS = s; pT = t; pSrc = at(s); pTar = at(t);
         pPrev = s->pathNext ? at(s->pathNext) : -1;
         pLineSrc = at(conn->src()); pLineDst = at(conn->dst());
